@@ -573,3 +573,19 @@ m('C07', 'gradient integrand without smu0', SIMS,
 m('C07', 'amat_x: eta enters with 0.5 (operator/gradient mismatch)', CORE,
   "rx[ix, iy, iz] -= 0.5*rrx - 0.25*stx*ex[ix, iy, iz]",
   "rx[ix, iy, iz] -= 0.5*rrx - 0.5*stx*ex[ix, iy, iz]", 'C07.G1')
+
+# ------------------------------------------------------------------- C08
+m('C08', 'jvec: z part of a VTI vector taken at index 2', SIMS,
+  "            n = 1 if self.model.case == 'VTI' else 2", "            n = 2", 'C08.V1')
+m('C08', 'jvec: HTI vector [c0,c1,c0] -> [c0,c1,c1]', SIMS,
+  "                    cvector = np.r_[cvector[0], cvector[1], cvector[0]]",
+  "                    cvector = np.r_[cvector[0], cvector[1], cvector[1]]", 'C08.V2')
+m('C08', 'jvec: chain rule applied to the caller vector', SIMS,
+  "            vector = vector.copy()", "            vector = vector", 'C08.V3')
+m('C08', 'jvec: forward tolerance for the sensitivity solve', SIMS,
+  "            data['solver_opts']['tol'] = self.tol_gradient\n            return self._data_or_file('gfield', source, freq, data)",
+  "            data['solver_opts']['tol'] = self.tol_forward\n            return self._data_or_file('gfield', source, freq, data)",
+  'C08.V3')
+m('C08', 'jtvec: multiplies by weights instead of dividing', SIMS,
+  "            self.data.residual[...] = vector/self.data.weights.data",
+  "            self.data.residual[...] = vector*self.data.weights.data", 'C08.V4')
